@@ -35,9 +35,73 @@ def strip_sgr(data):
     return _SGR[0].sub(b'', data) if isinstance(data, bytes) else _SGR[1].sub('', data)
 
 
-def run_chunked(args, data, chunk, env=None, timeout=60, cwd=None):
+def run_pty(args, data, env=None, timeout=60, cwd=None):
+    """runs args with standard output on a pseudo terminal (output post-processing switched off, so bytes arrive as
+    written), standard error on a pipe and `data` on a pipe as standard input. Returns (status | 'timeout', terminal
+    output, stderr)."""
+    import pty
+    import select
+    import subprocess
+    import termios
+    import time
+    master, slave = pty.openpty()
+    attr = termios.tcgetattr(slave)
+    attr[1] = attr[1] & ~termios.OPOST          # no NL -> CR NL translation
+    termios.tcsetattr(slave, termios.TCSANOW, attr)
+    try:
+        p = subprocess.Popen(args, stdin=subprocess.PIPE, stdout=slave, stderr=subprocess.PIPE, env=env, cwd=cwd,
+                             preexec_fn=child_setup)
+    finally:
+        os.close(slave)
+    out, err = [], []
+    try:
+        p.stdin.write(data)
+        p.stdin.close()
+    except OSError:
+        pass
+    fds = {master: out, p.stderr.fileno(): err}
+    t0 = time.time()
+    rc = None
+    while fds:
+        if time.time() - t0 > timeout:
+            p.kill()
+            rc = 'timeout'
+            break
+        r, _, _ = select.select(list(fds), [], [], 0.05)
+        for fd in r:
+            try:
+                b = os.read(fd, 65536)
+            except OSError:
+                b = b''
+            if b:
+                fds[fd].append(b)
+            else:
+                del fds[fd]
+        if not r and p.poll() is not None:
+            # the child is gone: drain what is left on the terminal side, then stop
+            for fd in list(fds):
+                try:
+                    while True:
+                        rr, _, _ = select.select([fd], [], [], 0)
+                        if not rr:
+                            break
+                        b = os.read(fd, 65536)
+                        if not b:
+                            break
+                        fds[fd].append(b)
+                except OSError:
+                    pass
+            break
+    p.wait()
+    os.close(master)
+    p.stderr.close()
+    return (p.returncode if rc is None else rc), b''.join(out), b''.join(err)
+
+
+def run_chunked(args, data, chunk, env=None, timeout=60, cwd=None, empty_after=None):
     """runs args with `data` on a standard input that hands it over `chunk` bytes per read: a SOCK_SEQPACKET socket pair,
     one packet per chunk (every read returns exactly one packet: short reads, deterministically), then end of input.
+    empty_after = i: an empty packet follows the chunk that starts at byte i.
     Returns (status | 'timeout', stdout, stderr)."""
     import socket
     import subprocess
@@ -53,6 +117,8 @@ def run_chunked(args, data, chunk, env=None, timeout=60, cwd=None):
         try:
             for i in range(0, len(data), chunk):
                 a.send(data[i:i + chunk])
+                if empty_after is not None and i == empty_after:
+                    a.send(b'')            # a read that returns nothing although more input follows
         except OSError:
             pass
         finally:
